@@ -30,6 +30,7 @@ type Node struct {
 	mu        sync.Mutex
 	notes     []Note
 	CacheSize uint64
+	Pruned    bool // block files are being pruned: old block data and journals may be gone
 }
 
 var dirMu sync.Mutex
@@ -208,13 +209,12 @@ func (n *Node) BestPath() []int {
 // NaiveFold applies the blocks of path from genesis (genesis outputs are not
 // spendable and not part of the set, as in btcd).
 func (f *Factory) NaiveFold(path []int) (map[wire.OutPoint]Coin, int) {
-	set := map[wire.OutPoint]Coin{}
-	txs := 1
+	set, txs := f.preFold()
 	for _, b := range path {
 		if b == 0 {
 			continue
 		}
-		h := int32(f.Sc.Height(b))
+		h := int32(f.Sc.Height(b)) + f.BaseHeight
 		for ti, tx := range f.Blocks[b].MsgBlock().Transactions {
 			txs++
 			if ti > 0 {
@@ -231,16 +231,38 @@ func (f *Factory) NaiveFold(path []int) (map[wire.OutPoint]Coin, int) {
 	return set, txs
 }
 
+// preFold folds the preamble blocks (the real chain below abstract block 0);
+// the real genesis block's outputs are not part of the set.
+func (f *Factory) preFold() (map[wire.OutPoint]Coin, int) {
+	set := map[wire.OutPoint]Coin{}
+	txs := 1
+	for i, pb := range f.Pre {
+		for ti, tx := range pb.MsgBlock().Transactions {
+			txs++
+			if ti > 0 {
+				for _, in := range tx.TxIn {
+					delete(set, in.PreviousOutPoint)
+				}
+			}
+			th := tx.TxHash()
+			for oi, o := range tx.TxOut {
+				set[wire.OutPoint{Hash: th, Index: uint32(oi)}] = Coin{o.Value, o.PkScript, ti == 0, int32(i + 1)}
+			}
+		}
+	}
+	return set, txs
+}
+
 // SpentBy returns, per block of path, the attributes of the outputs it spends
 // in transaction/input order (what the spend journal must hold).
 func (f *Factory) SpentBy(path []int) map[int][]Coin {
-	set := map[wire.OutPoint]Coin{}
+	set, _ := f.preFold()
 	out := map[int][]Coin{}
 	for _, b := range path {
 		if b == 0 {
 			continue
 		}
-		h := int32(f.Sc.Height(b))
+		h := int32(f.Sc.Height(b)) + f.BaseHeight
 		var spent []Coin
 		for ti, tx := range f.Blocks[b].MsgBlock().Transactions {
 			if ti > 0 {
@@ -290,10 +312,10 @@ func (n *Node) CheckUtxo() string {
 	if int(s.TotalTxns) != txs {
 		return fmt.Sprintf("BestSnapshot.TotalTxns=%d, active chain has %d transactions (chain %v)", s.TotalTxns, txs, path)
 	}
-	// spend journal of every main-chain block
+	// spend journal of every main-chain block (pruning deletes journals of pruned blocks)
 	spent := n.F.SpentBy(path)
 	for _, b := range path {
-		if b == 0 {
+		if b == 0 || n.Pruned {
 			continue
 		}
 		j, err := n.Chain.FetchSpendJournal(n.F.Blocks[b])
@@ -324,8 +346,9 @@ func (n *Node) CheckViews() string {
 		return fmt.Sprintf("snapshot hash %v is not a block of the scenario", s.Hash)
 	}
 	path := f.Sc.Path(tip)
-	if int(s.Height) != len(path)-1 {
-		return fmt.Sprintf("snapshot height %d but tip %d is at height %d", s.Height, tip, len(path)-1)
+	base := int(f.BaseHeight)
+	if int(s.Height) != len(path)-1+base {
+		return fmt.Sprintf("snapshot height %d but tip %d is at height %d", s.Height, tip, len(path)-1+base)
 	}
 	on := map[int]int{}
 	for h, b := range path {
@@ -337,7 +360,7 @@ func (n *Node) CheckViews() string {
 			return fmt.Sprintf("MainChainHasBlock(block %d)=%v but active chain is %v", b, got, path)
 		}
 		gh, err := n.Chain.BlockHeightByHash(f.Hash(b))
-		if isOn && (err != nil || int(gh) != h) {
+		if isOn && (err != nil || int(gh) != h+base) {
 			return fmt.Sprintf("BlockHeightByHash(block %d)=(%d,%v), want %d (chain %v)", b, gh, err, h, path)
 		}
 		if !isOn && err == nil {
@@ -345,14 +368,16 @@ func (n *Node) CheckViews() string {
 		}
 	}
 	for h := 0; h <= len(path)+1; h++ {
-		got, err := n.Chain.BlockHashByHeight(int32(h))
+		got, err := n.Chain.BlockHashByHeight(int32(h + base))
 		if h < len(path) {
 			if err != nil || *got != *f.Hash(path[h]) {
-				return fmt.Sprintf("BlockHashByHeight(%d)=(%v,%v), want block %d (chain %v)", h, got, err, path[h], path)
+				return fmt.Sprintf("BlockHashByHeight(%d)=(%v,%v), want block %d (chain %v)", h+base, got, err, path[h], path)
 			}
-			blk, err := n.Chain.BlockByHeight(int32(h))
-			if err != nil || *blk.Hash() != *f.Hash(path[h]) {
-				return fmt.Sprintf("BlockByHeight(%d) err=%v, want block %d", h, err, path[h])
+			if !n.Pruned {
+				blk, err := n.Chain.BlockByHeight(int32(h + base))
+				if err != nil || *blk.Hash() != *f.Hash(path[h]) {
+					return fmt.Sprintf("BlockByHeight(%d) err=%v, want block %d", h+base, err, path[h])
+				}
 			}
 		} else if err == nil {
 			return fmt.Sprintf("BlockHashByHeight(%d) succeeded beyond the tip height %d", h, len(path)-1)
@@ -365,8 +390,8 @@ func (n *Node) CheckViews() string {
 		if id < 0 {
 			return fmt.Sprintf("ChainTips lists unknown hash %v", t.BlockHash)
 		}
-		if int(t.Height) != f.Sc.Height(id) {
-			return fmt.Sprintf("ChainTips: block %d listed at height %d, is at %d", id, t.Height, f.Sc.Height(id))
+		if int(t.Height) != f.Sc.Height(id)+base {
+			return fmt.Sprintf("ChainTips: block %d listed at height %d, is at %d", id, t.Height, f.Sc.Height(id)+base)
 		}
 		_, isOn := on[id]
 		if t.Status == blockchain.StatusActive {
